@@ -35,11 +35,11 @@ func hash1(k []byte) uint64 { return chord.Hash(k) }
 func hash2(k []byte) uint64 { return (chord.Hash(k) + 1) & ((1 << 48) - 1) }
 
 type item struct {
-	k      []byte
-	isNil  bool   // nil *KVTransfer
-	sv     []byte // nil = nil SimpleValue
-	ch     [][]byte
-	lease  uint64
+	k     []byte
+	isNil bool   // nil *KVTransfer
+	sv    []byte // nil = nil SimpleValue
+	ch    [][]byte
+	lease uint64
 }
 
 type op struct {
@@ -609,10 +609,20 @@ func crashCase(root string, id int, seed uint64, n int, big bool) (out caseOut) 
 	for i := 0; i < acked; i++ {
 		plan[i].apply(kv)
 	}
-	out.emit(fmt.Sprintf("ref %d", acked), dump(raw))
+	d0 := dump(raw)
+	out.emit(fmt.Sprintf("ref %d", acked), d0)
 	for i := acked; i < issued; i++ {
 		plan[i].apply(kv)
-		out.emit(fmt.Sprintf("ref %d", i+1), dump(raw))
+		d1 := dump(raw)
+		out.emit(fmt.Sprintf("ref %d", i+1), d1)
+		switch {
+		case d1 == d0:
+			out.count("inflight-call:no-visible-effect")
+		case rec == d1:
+			out.count("inflight-call:found-committed")
+		case rec == d0:
+			out.count("inflight-call:found-not-committed")
+		}
 	}
 	raw.Close()
 	kv.Close()
@@ -664,7 +674,7 @@ func main() {
 	for i := 0; i < ncrash; i++ {
 		id, seed := i, rng.U64()
 		n := 8 + rng.Intn(25)
-		big := r.Thorough() && rng.Chance(25)
+		big := rng.Chance(20)
 		jobs = append(jobs, func() caseOut { return crashCase(root, id, seed, n, big) })
 	}
 	results := make([]caseOut, len(jobs))
